@@ -137,7 +137,9 @@ def to_py(e):
     if k == "sh":
         return f"f{e[1]}"
     if k == "p":
-        return f"q{e[1]}" if e[2] else f"self.p{e[1]}"
+        # qualifier kind of the operand: input Port | local Signal with default (q) | local Signal without default (g)
+        # | Variable (v, clocked designs); all followers carry the value of port i
+        return {False: f"self.p{e[1]}", True: f"q{e[1]}", "q": f"q{e[1]}", "g": f"g{e[1]}", "v": f"v{e[1]}"}[e[2]]
     if k == "lit":
         return lit_py(e[1], e[2])
     if k == "i":
@@ -245,7 +247,7 @@ def shape(e):
     if k == "sh":
         return "shared[" + shape(e[2]) + "]"
     if k == "p":
-        return e[3][0]
+        return {False: "", True: "sig:", "q": "sig:", "g": "sig:", "v": "var:"}[e[2]] + e[3][0]
     if k == "lit":
         return "lit-" + e[1][0]
     if k == "i":
@@ -279,7 +281,7 @@ def sj(shadows):
 
 
 def shadow_ports(shadows):
-    return {k: v for k, v in shadows.items() if k != "shared"}
+    return {k: v for k, v in shadows.items() if k not in ("shared", "g", "v")}
 
 
 def shared_used(e, acc=None):
@@ -317,7 +319,9 @@ class Gen:
         self.rng = rng
         self.ports = ports  # list of types
         self.maxw = maxw
-        self.shadows = shadows  # set of port indices that have a shadow signal
+        self.shadows = {i for i in shadows if isinstance(i, int)}  # inputs followed by a local Signal with default
+        self.plain = set(shadows.get("g", ())) if isinstance(shadows, dict) else set()   # ... by a Signal without default
+        self.vars = set(shadows.get("v", ())) if isinstance(shadows, dict) else set()    # ... by a Variable
         self.shared = list(shared)  # [(tree, type, where)]: named sub-objects reused by several expressions
 
     def sh(self, j):
@@ -371,9 +375,25 @@ class Gen:
                     return ("rsz", base, t[1])
         return None
 
-    def port(self, i):
-        sh = i in self.shadows and self.rng.random() < 0.5
-        return ("p", i, sh, self.ports[i])
+    def port(self, i, kind=None):
+        """operand reading input i through one of its qualifier kinds (chosen independently per operand position)"""
+        if kind is None:
+            kinds = self.kinds_of(i)
+            kind = False if (len(kinds) == 1 or self.rng.random() < 0.45) else self.rng.choice(kinds[1:])
+        return ("p", i, kind, self.ports[i])
+
+    def kinds_of(self, i):
+        return [False] + (["q"] if i in self.shadows else []) + (["g"] if i in self.plain else []) + (["v"] if i in self.vars else [])
+
+    def same_type_pair(self, pred):
+        """two DIFFERENT inputs of exactly the same type (qualifier kinds chosen independently), or None"""
+        r = self.rng
+        c = [(i, j) for i, a in enumerate(self.ports) for j, b in enumerate(self.ports) if i != j and a == b and pred(a)]
+        if not c:
+            return None
+        i, j = r.choice(c)
+        ka, kb = r.choice(self.kinds_of(i)), r.choice(self.kinds_of(j))
+        return self.port(i, ka), self.port(j, kb)
 
     def ports_of(self, pred):
         return [i for i, t in enumerate(self.ports) if pred(t)]
@@ -474,6 +494,10 @@ class Gen:
             if c in ("cmp", "cmpint", "chain"):
                 kind = r.choice("us")
                 wa, wb = r.randint(1, self.maxw), r.randint(1, self.maxw)
+                if c == "cmp" and r.random() < 0.35:
+                    pr = self.same_type_pair(lambda x: x[0] in ("u", "s"))
+                    if pr is not None:
+                        return ("cmp", r.choice(COPS), pr[0], pr[1])
                 if c == "cmp":
                     return ("cmp", r.choice(COPS), g((kind, wa), d - 1), self.maybe_lit(g((kind, wb), d - 1), (kind, wb)))
                 if c == "cmpint":
@@ -491,7 +515,13 @@ class Gen:
                 return ("cmp", r.choice(["eq", "ne"]), g(BIT, d - 1), g(BIT, d - 1))
             if c == "cmpbool":
                 return ("cmp", r.choice(["eq", "ne"]), g(BOOL, d - 1), g(BOOL, d - 1))
-            if c in ("truth", "not"):
+            if c == "truth":
+                # explicit bool() of an operand that is already boolean is only probed by the operator matrix:
+                # in a clocked context the result of `bool(<boolean Temporary>)` is never assigned on this tree
+                # (finding `value:truth(truth(or(u,u)))`), random trees would only re-find it under unstable shapes
+                tt = self.truthy_type()
+                return (c, g(tt if tt != BOOL else BIT, d - 1))
+            if c == "not":
                 return (c, g(self.truthy_type(), d - 1))
             if c in ("and", "or"):
                 return (c, g(self.truthy_type(), d - 1), g(self.truthy_type(), d - 1))
@@ -535,6 +565,10 @@ class Gen:
         if kind in ("u", "s"):
             c = r.choice(["add", "sub", "mul", "div", "mod", "rem", "bo", "inv", "shl", "shr", "view", "rsz", "ite", "sel", "addint", "divint", "mulint"]
                          + (["neg", "abs"] if kind == "s" else []))
+            if c in ("add", "sub", "div", "mod", "rem", "bo") and r.random() < 0.25:
+                pr = self.same_type_pair(lambda x: x == t)
+                if pr is not None:
+                    return ("bo", r.choice(LOPS), pr[0], pr[1]) if c == "bo" else ("ar", c, pr[0], pr[1])
             if c in ("add", "sub"):
                 w2 = r.randint(1, w)
                 a, b = g((kind, w), d - 1), g((kind, w2), d - 1)
@@ -685,7 +719,7 @@ def malformed(rng, gen):
 
 HEADER = '''
 import cohdl
-from cohdl import std, Bit, BitVector, Unsigned, Signed, Port, Signal, Null, Full
+from cohdl import std, Bit, BitVector, Unsigned, Signed, Port, Signal, Variable, Null, Full
 from cohdl import op
 
 TYPES = {}
@@ -709,13 +743,21 @@ def design_source(ports, shadows, exprs, out_types, clocked, record=True):
         lines.append(f"    o{k} = Port.output({ty_py(t)})\n")
     lines.append("\n    def architecture(self):\n")
     shared = shared_of(shadows)
+    plain = sorted(shadows.get("g", ()))
+    variables = sorted(shadows.get("v", ())) if clocked else []
     shadows = shadow_ports(shadows)
+    for i in plain:
+        lines.append(f"        g{i} = Signal[{ty_py(ports[i])}](name='g{i}')\n")
+    for i in variables:
+        lines.append(f"        v{i} = Variable[{ty_py(ports[i])}](name='v{i}')\n")
     for i, dflt in sorted(shadows.items()):
         lines.append(f"        q{i} = Signal[{ty_py(ports[i])}]({lit_py(ports[i], dflt) if ports[i][0] == 'bv' else dflt}, name='q{i}')\n")
-    if shadows:
+    if shadows or plain:
         lines.append("\n        @std.concurrent\n        def shadow():\n")
         for i in sorted(shadows):
             lines.append(f"            q{i}.next = self.p{i}\n")
+        for i in plain:
+            lines.append(f"            g{i}.next = self.p{i}\n")
     for j, (tree, _, where) in enumerate(shared):
         if where == "arch":
             lines.append(f"        f{j} = {to_py(tree)}\n")
@@ -723,6 +765,8 @@ def design_source(ports, shadows, exprs, out_types, clocked, record=True):
         lines.append("\n        @std.sequential(std.Clock(self.clk))\n        def logic():\n")
     else:
         lines.append("\n        @std.concurrent\n        def logic():\n")
+    for i in variables:
+        lines.append(f"            v{i}.value = self.p{i}\n")
     for j, (tree, _, where) in enumerate(shared):
         if where != "arch":
             lines.append(f"            f{j} = {to_py(tree)}\n")
@@ -999,9 +1043,15 @@ def make_ports(rng, small, maxw):
                 break
         if not any(t[0] == "u" for t in ports):
             ports.append(("u", 1))
+        # two inputs of exactly the same type (needed for same-type operand pairs with different qualifier kinds)
+        nums = [t for t in ports if t[0] in ("u", "s") and sum(width(x) for x in ports) + t[1] <= 10]
+        if nums and rng.random() < 0.6:
+            ports.append(rng.choice(nums))
     else:
         for kd in ["u", "u", "s", "s", "bv", "bv"]:
             w = rng.choice([1, 2, 3, 5, 7, 8, 13, 16, 31, 32, 33, 48, 63, 64]) if rng.random() < 0.7 else rng.randint(1, maxw)
+            if len(ports) in (1, 3) and rng.random() < 0.5:
+                w = ports[-1][1]  # same type as the previous input of this kind
             ports.append((kd, min(w, maxw)))
         ports += [BIT, BIT]
     return ports
@@ -1046,14 +1096,17 @@ def build_designs(ctx, n_designs, per_design, depth, small, maxw, clocked_ratio=
                     shadows[i] = rng.choice([-(1 << (t[1] - 1)), -1 if t[1] > 1 else 0, (1 << (t[1] - 1)) - 1, 0, rng.randint(-(1 << (t[1] - 1)), (1 << (t[1] - 1)) - 1)])
                 else:
                     shadows[i] = rng.choice([0, (1 << t[1]) - 1, rng.randrange(1 << t[1])])
-        g = Gen(rng, ports, maxw, set(shadows))
+        clocked = rng.random() < clocked_ratio
+        shadows["g"] = [i for i in range(len(ports)) if rng.random() < 0.35]
+        shadows["v"] = [i for i in range(len(ports)) if clocked and rng.random() < 0.3]
+        g = Gen(rng, ports, maxw, shadows)
         exprs = []
         add_shared(rng, g, shadows, exprs, rng.randint(0, 2))
         for _ in range(per_design):
             t = root_type(rng, maxw)
             exprs.append(g.gen(t, rng.randint(1, depth)))
         rng.shuffle(exprs)
-        designs.append(DesignCase(ports, shadows, exprs, rng.random() < clocked_ratio, small))
+        designs.append(DesignCase(ports, shadows, exprs, clocked, small))
     return designs
 
 
@@ -1102,7 +1155,8 @@ def slice_designs(ctx):
         shadows = {}
         if rng.random() < 0.3:
             shadows[0] = rng.randrange(1 << (w0 - 1))
-        g = Gen(rng, ports, 4, set(shadows))
+        shadows["g"] = [i for i in range(len(ports)) if rng.random() < 0.3]
+        g = Gen(rng, ports, 4, shadows)
         exprs = []
         g.ports = [ports[0]]  # chains over the wide port
         add_shared(rng, g, shadows, exprs, rng.randint(2, 3))
@@ -1196,8 +1250,8 @@ def run(ctx: Ctx):
                 "more than one value over the explored valuations; distinct = distinct (expression, ports, context)")
     import os
     dev = float(os.environ.get("C02_DEV_SCALE", "1"))   # development only: shrink the run
-    n_small = max(1, int(ctx.scale(24, 200) * dev))
-    n_wide = max(1, int(ctx.scale(10, 80) * dev))
+    n_small = max(1, int(ctx.scale(22, 200) * dev))
+    n_wide = max(1, int(ctx.scale(9, 80) * dev))
     per_design = ctx.scale(9, 14)
     depth = ctx.scale(3, 4)
     exhaustive_bits = ctx.scale(11, 12)
@@ -1210,6 +1264,8 @@ def run(ctx: Ctx):
     designs += matrix_designs(ctx)
     # sub-object sharing: nested slices / views reused by several outputs (always swept exhaustively)
     designs += slice_designs(ctx)
+    # operand qualifier kinds (Port / Signal / Variable / Temporary / constant) per operand position
+    designs += qualifier_matrix(ctx)
 
     # ---- (a) model typing, designs, compile
     all_exprs = [e for d in designs for e in d.exprs]
@@ -1364,9 +1420,9 @@ def run(ctx: Ctx):
                      sample={"expr": to_py(e), "type": ty_str(t), "ports": [ty_str(p) for p in d.ports], "clocked": d.clocked,
                              "valuations": len(d.vals), "exhaustive": d.exh})
             if bad is not None:
-                n_mismatch += 1
-                if n_mismatch <= 6:  # enough minimised replays; the count is still in the obligation
-                    report_value(ctx, d, e, bad)
+                # a difference that is exactly a listed known finding does not break the obligation
+                if n_mismatch >= 6 or report_value(ctx, d, e, bad):  # 6 minimised replays are enough; the count goes on
+                    n_mismatch += 1
     ctx.extra["valuations_skipped_division_by_zero"] = n_skipped
     ctx.extra["operand_valuations_compared"] = n_evals
     ctx.obligation("correspondence (b): value of the emitted logic = evalSpec on every explored operand valuation",
@@ -1432,17 +1488,16 @@ def report_value(ctx, d, e, bad):
                 break
     if small is None:
         # not reproducible alone: report the design as it is
-        ctx.report(f"value-in-design:{shape(e)}",
+        return ctx.report(f"value-in-design:{shape(e)}",
                    f"`{to_py(e)}` differs inside its design only (valuation {v}: expected {exp}, observed {obs})",
                    {"kind": "design", "ports": d.ports, "shadows": sj(d.shadows), "exprs": d.exprs, "clocked": d.clocked,
                     "valuation": list(v), "expected": exp, "observed": obs, "source": d.src, "failing": d.exprs.index(e)},
                    no_failing_input=False)
-        return
     f = res["fail"]
     used = sorted(shared_used(small) | (shared_used(context[0]) if context else set()))
     objs = "; ".join(f"f{j} = {to_py(d.shadows['shared'][j][0])}" for j in used)
     sig = f"value:{shape(small)}" + (f"|after:{shape(context[0])}" if context else "")
-    ctx.report(sig,
+    return ctx.report(sig,
                f"`{to_py(small)}`" + (f" (with {objs})" if objs else "") + (f", emitted after `{to_py(context[0])}`" if context else "") +
                f" ({'clocked' if d.clocked else 'concurrent'}) on operand valuation {f['valuation']} "
                f"(ports {[ty_str(p) for p in d.ports]}): documented value {f['expected']}, emitted logic gives {f['observed']}",
@@ -1478,7 +1533,7 @@ def matrix_designs(ctx):
     V = lambda i, w: ("p", i, False, ("bv", w))
     B = lambda i: ("p", i, False, BIT)
     # 2*(wa+wb)+1 <= 11 input bits: every matrix design is swept over ALL operand valuations
-    for wa, wb in ([(3, 2), (2, 3), (2, 2)] if ctx.quick else [(1, 1), (3, 2), (2, 3), (2, 2), (4, 1), (1, 4)]):
+    for wa, wb in ([(3, 2), (2, 3)] if ctx.quick else [(1, 1), (3, 2), (2, 3), (2, 2), (4, 1), (1, 4)]):
         ports = [("u", wa), ("u", wb), ("s", wa), ("s", wb), BIT]
         a, b, s, t, x = U(0, wa), U(1, wb), S(2, wa), S(3, wb), B(4)
         ex = []
@@ -1492,7 +1547,7 @@ def matrix_designs(ctx):
             # operand forms that were seen to fail on the pinned tree (notes/C02.md): unary minus on Unsigned,
             # a typed Bit constant as LEFT operand, run-time index of / with a Temporary; one design each so that
             # a rejection does not force the isolation of a whole matrix design
-            for pe in [("neg", a), ("bo", "and", ("lit", BIT, 1), x), ("bo", "or", ("lit", BIT, 0), x),
+            for pe in [("neg", a), ("bo", "and", ("lit", BIT, 1), x), ("bo", "or", ("lit", BIT, 0), x), ("truth", ("truth", ("or", a, b))),
                        ("idxrt", ("rsz", a, 4), ("p", 1, False, ("u", 2))), ("idxrt", ("rsz", a, 4), ("ar", "add", b, b))]:
                 for clocked in (False, True):
                     out.append(DesignCase(ports, {}, [pe], clocked, True))
@@ -1529,6 +1584,53 @@ def matrix_designs(ctx):
             ex += [("sel", i1, [(0, a), (1, b)], None), ("sel", i1, [(1, a)], b), ("ite", i1, a, b)]
             for clocked in (False, True):
                 out.append(DesignCase(ports, {}, ex, clocked, True))
+    return out
+
+
+def qualifier_matrix(ctx):
+    """operand QUALIFIER kinds varied independently per operand position, on two inputs of exactly the same type
+    (same kind, same width - where the operator dispatch of the front end can take subclass / reflected paths):
+    input Port, local Signal with default, local Signal without default, Variable (clocked designs), Temporary
+    (intermediate result `x + 0`), typed constant (right operand); every ordered pair, for every comparison operator,
+    a chained comparison and binary operators of every family; 4-6 input bits, all valuations, both contexts"""
+    out = []
+    w = 2
+    for kd in ("u", "s"):
+        ports = [(kd, w), (kd, w), ("u", 1)]
+        t = (kd, w)
+        lo, hi = (0, 3) if kd == "u" else (-2, 1)
+        shadows = {0: hi, 1: lo, "g": [0, 1], "v": [0, 1]}
+        if ctx.quick:
+            binops = [("cmp", o) for o in COPS] + [("ar", "sub"), ("chain",)] + ([("ar", "mod"), ("bo", "xor"), ("cat",)] if kd == "u" else [])
+        else:
+            binops = [("cmp", o) for o in COPS] + [("ar", o) for o in AOPS] + [("bo", o) for o in LOPS] + [("cat",), ("chain",)]
+        if kd == "u":
+            binops += [("shr",), ("shl",)]
+        for clocked in (False, True):
+            kinds = ([False, "q", "g"] if (kd == "u" or not ctx.quick) else [False, "g"]) + (["v"] if clocked else [])
+            forms_a = [("p", 0, k, t) for k in kinds]
+            forms_b = [("p", 1, k, t) for k in kinds]
+            ext_a = forms_a + [("ar", "add", ("p", 0, False, t), ("i", 0))]
+            ext_b = forms_b + [("ar", "add", ("p", 1, False, t), ("i", 0)), ("lit", t, hi)]
+            ex = []
+            for bop in binops:
+                extended = bop in (("cmp", "lt"), ("cmp", "ge"), ("ar", "sub")) or not ctx.quick and bop[0] in ("cmp", "chain")
+                if bop[0] in ("shr", "shl") and ctx.quick:
+                    ex += [(bop[0], a, ("p", 1, False, t)) for a in forms_a]
+                    continue
+                if extended and (kd == "u" or not ctx.quick):
+                    pairs = [(a, b) for a in ext_a for b in ext_b]
+                else:
+                    pairs = [(a, b) for a in forms_a for b in forms_b]
+                for a, b in pairs:
+                    if bop[0] in ("cmp", "ar", "bo"):
+                        ex.append((bop[0], bop[1], a, b))
+                    elif bop[0] == "chain":
+                        ex.append(("chain", "le", "lt", ("i", lo), a, b))
+                    else:
+                        ex.append((bop[0], a, b))
+            for i in range(0, len(ex), 40):
+                out.append(DesignCase(ports, dict(shadows), ex[i:i + 40], clocked, True))
     return out
 
 
@@ -1625,7 +1727,10 @@ def replay(ctx, data):
     r = data["replay"]
     kind = r.get("kind")
     ports = [tuple(p) for p in r["ports"]]
-    shadows = {int(k): v for k, v in r.get("shadows", {}).items() if k != "shared"}
+    shadows = {int(k): v for k, v in r.get("shadows", {}).items() if k not in ("shared", "g", "v")}
+    for key in ("g", "v"):
+        if r.get("shadows", {}).get(key):
+            shadows[key] = list(r["shadows"][key])
     if r.get("shadows", {}).get("shared"):
         shadows["shared"] = [(_expr_from_json(t), tuple(ty), where) for t, ty, where in r["shadows"]["shared"]]
     if kind in ("value", "type", "reject"):
